@@ -269,7 +269,10 @@ def run_decl_array(w, unchecked):
         L.functions.update(GEN + ['hidc.codegen.generator.CodeGen.create_new_stack_array', 'hidc.codegen.generator.CodeGen.array_lookup'])
         try:
             cov = [('exit', '<end>')] + ([] if unchecked else [('term', 'out_of_bounds')] if not nm.startswith('dynamic') else [('term', 'stack_overflow')])
-            res += L.check_stmts(mk(L), props(unchecked), cov)
+            P_ = props(unchecked)
+            if nm == 'string-as-bytes':
+                P_['SIM'] = P_['SIM'] + ('C13', 'C17')          # a string constant viewed as bytes: its length and bytes (C13), what write(const byte[]) prints (C17)
+            res += L.check_stmts(mk(L), P_, cov)
         finally:
             L.close()
     return res
@@ -284,7 +287,7 @@ def run(family, w, unchecked):
 
 def tasks(tier):
     out = []
-    P = ('C01', 'C02', 'C03', 'C04', 'C05', 'C08', 'C09', 'C10', 'C15', 'C16')
+    P = ('C01', 'C02', 'C03', 'C04', 'C05', 'C08', 'C09', 'C10', 'C13', 'C15', 'C16', 'C17')
     for w in ((2,) if tier == 'quick' else (2, 3, 4)):          # w = 8: see DESIGN 16.10
         for unchecked in ((False, True) if tier == 'thorough' else (False,)):
             for fam in FAMILIES:
